@@ -245,10 +245,10 @@ pub fn check_c08(ctx: &mut Ctx, input: &[u8]) {
                     // header accessors
                     let exp = obs::Hdr { version: b[0] >> 6, type_: b[1], subtype: b[0] & 0x1f, count: b[0] & 0x1f, length: dec::declared_len(b) };
                     if fr.concrete != exp && fr.hdr == exp {
-                        broken.push(format!("header accessors called on the concrete type report {:?}, the bytes say {:?}", fr.concrete, exp));
+                        broken.push(format!("concrete-type header accessors 0: called with method syntax on the typed value they report {:?}, the bytes say {:?}", fr.concrete, exp));
                     }
                     if fr.hdr != exp {
-                        broken.push(format!("header accessors report {:?}, the bytes say {:?}", fr.hdr, exp));
+                        broken.push(format!("header accessors 0: they report {:?}, the bytes say {:?}", fr.hdr, exp));
                     }
                     if let Some(pad) = fr.padding {
                         let want = if dec::p_bit(b) { Some(b[b.len() - 1]) } else { None };
